@@ -46,6 +46,7 @@ META = {
 
 BIN = C.bin_path("c07")
 SCRATCH = os.path.join(C.BUILD, "C07")
+MODS = os.path.join(C.BUILD, "C07", "mods")      # texts evaluated as modules are written here
 MEM_KB = 3 * 1024 * 1024        # address-space limit of a child (ulimit -v)
 
 # ------------------------------------------------------------------------------------------------------------------
@@ -218,7 +219,9 @@ FINDING_CLASSES = [
       r"panic:library/core/src/ops/(bit|arith)\.rs@steel::primitives::numbers::arithmetic_shift"]),
     ("function-arity-empty-contract-struct", [r"panic:crates/steel-core/src/steel_vm/primitives\.rs:arity"]),
     ("mvector-index-unchecked", [r"panic:crates/steel-core/src/steel_vm/primitives\.rs:vector_(ref|set)"]),
-    ("require-only-in-non-identifier-unwrap", [r"panic:crates/steel-core/src/compiler/modules\.rs:compile_main"]),
+    ("require-only-in-non-identifier-unwrap", [r"panic:crates/steel-core/src/compiler/modules\.rs:(compile_main|to_top_level_module)"]),
+    ("module-level-non-identifier-binder-panics",
+     [r"panic:crates/steel-core/src/compiler/passes/analysis\.rs:(visit_lambda_function|visit_top_level_define_value_without_body)"]),
     ("thread-copy-inside-open-continuation-mark-assertion", [r"panic:crates/steel-core/src/steel_vm/vm\.rs:close"]),
     ("negative-count-becomes-huge", [r"hang:builtin:(range-vec|make-struct-type)", r"abort:out-of-memory:builtin:(range-vec|make-struct-type)"]),
     ("unbounded-allocation-request",
@@ -380,8 +383,14 @@ def run_builtins(ctx, classes, stats):
             total = {0: 1, 1: n, 2: n * n}.get(a, n * n if mode == 1 else n ** 3)
             # split big sweeps so that the work spreads over the processes
             step = 40000
-            for s in range(0, total, step):
-                jobs.append((name, module, a, mode, s, min(total, s + step)))
+            # where the applying loop lives: a top-level procedure (0) or a procedure of a required module (1);
+            # the quick tier alternates, the thorough tier does both
+            wheres = [(sum(map(ord, name)) + a + ctx.seed) % 2] if quick else [0, 1]
+            for w in wheres:
+                for s in range(0, total, step):
+                    jobs.append((name, module, a, mode, s, min(total, s + step), w))
+    stats["sweep_jobs_top_level"] = sum(1 for j in jobs if j[6] == 0)
+    stats["sweep_jobs_in_module"] = sum(1 for j in jobs if j[6] == 1)
     stats["builtins"] = len(fns)
     stats["builtins_denied"] = len(deny_log)
     stats["builtins_swept"] = len(fns) - len(deny_log)
@@ -443,8 +452,8 @@ def builtin_worker(ctx, wid, queue):
             todo = queue.take()
             if not todo:
                 break
-        lines = ["F %s %s %d %d %d %d" % j for j in todo]
-        env = {"C07_SOFT_MS": "3000", "C07_HARD_MS": "2500" if ctx.quick() else "8000",
+        lines = ["F %s %s %d %d %d %d %d" % j for j in todo]
+        env = {"C07_MODS": MODS, "C07_SOFT_MS": "3000", "C07_HARD_MS": "2500" if ctx.quick() else "8000",
                "C07_MAX_PANICS": "6" if ctx.quick() else "200", "C07_MAX_SAME": "2" if ctx.quick() else "40"}
         rc, tail = spawn("builtins", lines, out, sandbox, env=env, timeout=3600)
         res["spawns"] += 1
@@ -533,7 +542,7 @@ def builtin_worker(ctx, wid, queue):
         if not hang:
             hangs_per_fn[cur[0]] = hangs_per_fn.get(cur[0], 0) + 1
         if nxt < cur[5] and hangs_per_fn.get(cur[0], 0) < (1 if ctx.quick() else 12):
-            todo = [(cur[0], cur[1], cur[2], cur[3], nxt, cur[5])] + rest
+            todo = [(cur[0], cur[1], cur[2], cur[3], nxt, cur[5], cur[6])] + rest
         else:
             if nxt < cur[5]:
                 res["truncated"] = res.get("truncated", 0) + 1
@@ -585,7 +594,7 @@ def confirm_builtin_events(ctx, raw, pool, n, classes, stats):
             stats["slow_not_hung"] = stats.get("slow_not_hung", 0) + 1
             continue
         # not reproduced from source text on a fresh engine: report with the sweep job as the replay
-        jobline = "F %s %s %d %d %d %d" % (name, module, arity, mode, max(0, k), (k + 1) if k >= 0 else job[5])
+        jobline = "F %s %s %d %d %d %d %d" % (name, module, arity, mode, max(0, k), (k + 1) if k >= 0 else job[5], job[6])
         if kind == "panic":
             key = panic_class(detail)
         elif kind == "death":
@@ -742,8 +751,8 @@ def run_texts(ctx, items, fresh_each=False, tag="t", engine_every=40, phases=Tru
             for c, i in enumerate(todo):
                 if c and (fresh_each or c % engine_every == 0):
                     lines.append("N")
-                lines.append("T %d %s" % (i, items[i][1].hex()))
-            env = {"C07_SOFT_MS": str(soft), "C07_HARD_MS": str(hard)}
+                lines.append("%s %d %s" % ("M" if items[i][0].startswith("mod:") else "T", i, items[i][1].hex()))
+            env = {"C07_SOFT_MS": str(soft), "C07_HARD_MS": str(hard), "C07_MODS": MODS}
             rc, tail = spawn("texts", lines, out, sandbox, env=env, timeout=60 + (hard // 1000 + 2) * len(todo))
             recs = read_records(out)
             cur = None
@@ -837,15 +846,15 @@ def run_texts(ctx, items, fresh_each=False, tag="t", engine_every=40, phases=Tru
 
 
 def run_sequences(ctx, seqs, tag="s", hard_ms=12000):
-    """seqs: list of lists of byte strings; each sequence runs on its own fresh engine (own child process).
+    """seqs: list of lists of (as_module, byte string); each sequence runs on its own fresh engine (own child process).
     Returns, per sequence, the result dict of its LAST text (None if the child died before)."""
     def one(arg):
         slot, seq = arg
         out = os.path.join(SCRATCH, "%s%d.out" % (tag, slot % 64))
         out = os.path.join(SCRATCH, "%s-%d.out" % (tag, slot))
-        lines = ["T %d %s" % (i, b.hex()) for i, b in enumerate(seq)]
+        lines = ["%s %d %s" % ("M" if mod else "T", i, b.hex()) for i, (mod, b) in enumerate(seq)]
         rc, tail = spawn("texts", lines, out, os.path.join(SCRATCH, "sandbox", "%s%d" % (tag, slot % 32)),
-                         env={"C07_SOFT_MS": "3000", "C07_HARD_MS": str(hard_ms)}, timeout=60 + 15 * len(seq))
+                         env={"C07_SOFT_MS": "3000", "C07_HARD_MS": str(hard_ms), "C07_MODS": MODS}, timeout=60 + 15 * len(seq))
         got = {}
         cur = None
         hooks = []
@@ -999,6 +1008,7 @@ def run_model_correspondence(ctx, classes, stats):
 # directed histories: evaluations on one engine with expectations about the later ones
 
 HSEP = "\n;;; next evaluation on the same engine\n"
+MODMARK = ";;; evaluated as a module"
 
 HISTORIES = [
     # (name, [(kind, text, expectation)])   kind T = evaluate, X = evaluate and compare; expectation: ("value", s) |
@@ -1022,7 +1032,7 @@ HISTORIES = [
     ("interrupted-loop-then-continue",
      [("T", "(define (c07-spin n) (c07-spin (+ n 1))) (c07-spin 0)", ("error", "Interrupted")), ("X", "(+ 40 2)", ("value", "42"))]),
     ("deep-recursion-error-then-continue",
-     [("T", "(define (c07-deep n) (+ 1 (c07-deep (+ n 1)))) (c07-deep 0)", ("error", "")), ("X", "(+ 40 2)", ("value", "42"))]),
+     [("T", "(define (c07-deep n) (+ 1 (c07-deep (+ n 1)))) (c07-deep 0)", ("error-or-interrupt", "")), ("X", "(+ 40 2)", ("value", "42"))]),
     ("error-inside-handler-inside-handler",
      [("T", "(with-handler (lambda (e) (with-handler (lambda (e2) (car e2)) (cdr 7))) (car 1))", ("error", "")),
       ("X", "(with-handler (lambda (e) 'again) (car 1))", ("value", "again"))]),
@@ -1049,7 +1059,7 @@ def run_histories(ctx, classes, stats):
             hists.append(("finding-" + os.path.basename(p)[4:-4], [("T", x, None) for x in t.split(HSEP)]))
     for hi, (name, steps) in enumerate(hists):
         lines = ["%s %d %s" % (k, i, text.encode().hex()) for i, (k, text, _) in enumerate(steps)]
-        rc, tail = spawn("texts", lines, out, os.path.join(SCRATCH, "sandbox", "hist"), env={"C07_SOFT_MS": "2000", "C07_HARD_MS": "9000"}, timeout=120)
+        rc, tail = spawn("texts", lines, out, os.path.join(SCRATCH, "sandbox", "hist"), env={"C07_SOFT_MS": "4000", "C07_HARD_MS": "12000", "C07_MODS": MODS}, timeout=180)
         got = {}
         depth = {}
         for r in read_records(out):
@@ -1072,7 +1082,7 @@ def run_histories(ctx, classes, stats):
             if g[0] == "res" and g[1].startswith("panic"):
                 bad.append("step %d `%s`: %s" % (i, text, g[1][:200]))
                 continue
-            if g[0] == "res" and "Interrupted by user" in g[1] and not (exp and exp[1] == "Interrupted"):
+            if g[0] == "res" and "Interrupted by user" in g[1] and not (exp and (exp[1] == "Interrupted" or exp[0] == "error-or-interrupt")):
                 bad.append("step %d `%s`: did not terminate (interrupted by the watchdog)" % (i, text))
                 continue
             if exp is None:
@@ -1084,6 +1094,9 @@ def run_histories(ctx, classes, stats):
                 val = g[1].split("\x1f")[-1] if g[0] == "value" else None
                 if val != exp[1]:
                     bad.append("step %d `%s`: expected the value %s, got %s" % (i, text, exp[1], g))
+            elif exp[0] == "error-or-interrupt":
+                if not (g[0] == "res" and g[1].startswith("err")):
+                    bad.append("step %d `%s`: expected an error, got %s" % (i, text, g))
             else:
                 if not (g[0] == "res" and g[1].startswith("err") and exp[1] in g[1]):
                     bad.append("step %d `%s`: expected an error%s, got %s" % (i, text, " mentioning " + exp[1] if exp[1] else "", g))
@@ -1290,7 +1303,10 @@ def corpus_texts():
     for p in sorted(glob.glob(os.path.join(C.VERIF, "findings", "C07-K07*.txt"))):
         t = finding_replay_text(open(p, encoding="utf-8", errors="replace").read())
         if t and not t.startswith(";;; sweep job") and HSEP not in t:
-            out.append(("finding:" + os.path.basename(p), t.encode()))
+            if t.startswith(MODMARK):
+                out.append(("mod:finding:" + os.path.basename(p), t.split("\n", 1)[1].encode()))
+            else:
+                out.append(("finding:" + os.path.basename(p), t.encode()))
     return out
 
 
@@ -1345,6 +1361,17 @@ def gen_texts(ctx, stats):
         else:
             m = b
         add("suite", "suite:" + os.path.relpath(f, C.REPO), m)
+    # module mode: the same kinds of text evaluated as `(require "<file>")` (what `steel file.scm` does)
+    base = list(items)
+    picks = [kb for kb in base if kb[0].startswith(("corpus:", "finding:"))]
+    items[:] = [kb for kb in items]
+    picks += [kb for kb in base if kb[0].startswith("deep:") and (":100#" in kb[0] or ":1000#" in kb[0])]
+    rest = [kb for kb in base if kb[0].startswith(("grammar", "suite:", "tokens"))]
+    r.shuffle(rest)
+    picks += rest[: (600 if quick else 12000)]
+    for k, b in picks:
+        items.append(("mod:%s" % k, b))
+        dist["module-mode"] = dist.get("module-mode", 0) + 1
     stats["text_distribution"] = dist
     return items
 
@@ -1357,19 +1384,11 @@ def slug(key):
 
 
 def load_known(ctx):
-    """class key -> (id, description).  KNOWN_FINDINGS.txt first; findings/C07-K07*.txt (written by this property's
-    builder, awaiting listing by the coordinator) count as listed."""
+    """class -> (id, description) of the open findings of this property in KNOWN_FINDINGS.txt"""
     known = {}
     for k in ctx.load_known():
         if "class" in k:
             known[k["class"]] = (k.get("id", "?"), k["text"].split(" ", 5)[-1])
-    for p in sorted(glob.glob(os.path.join(C.VERIF, "findings", "C07-K07*.txt"))):
-        kid = os.path.basename(p)[4:-4]
-        head = [l for l in open(p, encoding="utf-8", errors="replace").read().split("\n") if l.startswith("#!c07 ")]
-        what = " ".join(l[len("#!c07 what: "):] for l in head if l.startswith("#!c07 what: "))
-        for l in head:
-            if l.startswith("#!c07 class: "):
-                known.setdefault(l[len("#!c07 class: "):].strip(), (kid, what))
     return known
 
 
@@ -1447,6 +1466,8 @@ def run(ctx):
         if not os.path.basename(p).startswith("C07-K07"):
             os.remove(p)                                  # violation files of earlier runs of this check
     shutil.rmtree(os.path.join(SCRATCH, "sandbox"), ignore_errors=True)
+    shutil.rmtree(MODS, ignore_errors=True)
+    os.makedirs(MODS, exist_ok=True)
     os.makedirs(os.path.join(SCRATCH, "sandbox"), exist_ok=True)
     t_ok, t_info = translate(ctx)
     if not t_ok:
@@ -1495,7 +1516,9 @@ def run(ctx):
         ra = alone.get(key)
         text = b.decode("utf-8", "replace")
         fa = failure_classes(ra) if ra else []
-        src = key.split("#")[0].split(":")[0]
+        src = ("module:" if key.startswith("mod:") else "") + key.replace("mod:", "", 1).split("#")[0].split(":")[0]
+        if key.startswith("mod:"):
+            text = MODMARK + ": written to a file F and run as (require \"F\")\n" + text
         if not fa:
             pending.append((key, b, r))
             continue
@@ -1515,10 +1538,11 @@ def run(ctx):
             continue
         investigated[cls] = investigated.get(cls, 0) + 1
         ep = [k for k in r.get("epoch", []) if k in by_key][-40:]
+        ism = lambda k: k.startswith("mod:")
         for k in ep:
-            seqs.append([by_key[k], b])
+            seqs.append([(ism(k), by_key[k]), (ism(key), b)])
             owners.append((key, [k]))
-        seqs.append([by_key[k] for k in ep] + [b])
+        seqs.append([(ism(k), by_key[k]) for k in ep] + [(ism(key), b)])
         owners.append((key, ep))
     got = run_sequences(ctx, seqs) if seqs else []
     found = {}
@@ -1597,6 +1621,13 @@ def replay(ctx, path):
                          os.path.join(SCRATCH, "sandbox", "replay"), env={"C07_SOFT_MS": "3000", "C07_HARD_MS": "9000"}, timeout=300)
         print("\n".join(read_records(out)))
         print("exit status", rc, death_signature(rc, tail) if rc else "")
+        return 0
+    if text.startswith(MODMARK):
+        res = run_texts(ctx, [("mod:replay", text.split("\n", 1)[1].encode())], fresh_each=True, tag="r")
+        r = res.get("mod:replay")
+        print("result:", r)
+        for ck, det in failure_classes(r):
+            print("class:", finding_class(ck), "|", det)
         return 0
     res = run_texts(ctx, [("replay", text.encode())], fresh_each=True, tag="r")
     r = res.get("replay")
